@@ -1,5 +1,6 @@
     requires old(self).wf(*old(w)),
         forall|j: int| 0 <= j < item.watermarks@.len() ==> ks_wf(&(#[trigger] item.watermarks@[j]).keyspace, *old(w)),
+        item.path.id@ != old(w).journal.path, // [C10:only-sealed-files-are-queued] [C04:only-sealed-files-are-queued] [C02:only-sealed-files-are-queued]
     ensures
         final(self).wf(*final(w)), // [C10:queue-is-registry]
         *final(w) == (World { sealed: old(w).sealed.push(item_view(item)), ..*old(w) }), // [C10:sealed-at-the-back]
